@@ -21,8 +21,10 @@ Nothing is sampled: VERIF_SEED only rotates which alphabet value is the base ins
 from __future__ import annotations
 
 import dataclasses
+import functools
 import importlib
 import json
+import operator
 import os
 import sys
 import types
@@ -207,7 +209,7 @@ class Spec:
                     self.fields.append(("cls", f))
             self.names = list(cls.names)
             self.default = None
-            self.hooks = {}
+            self.hooks, self.styles = {}, {}
             self.shape = "wid" if issubclass(cls, VariablePayloadWID) and hasattr(cls, "msg_id") else "flat"
             self.msg_id = getattr(cls, "msg_id", None)
         else:
@@ -216,7 +218,12 @@ class Spec:
             for i, f in enumerate(defn["f"]):
                 self.names += [f"f{i}b{b}" for b in range(8)] if f == "bits" else [f"f{i}"]
             self.default = defn.get("dflt")
-            self.hooks = {int(i): m for i, m in defn.get("hooks", [])}
+            # a hook is [name index, "mode" or "mode/binding style"]; mode: both | pack | unpack
+            self.hooks = {int(i): m.partition("/")[0] for i, m in defn.get("hooks", [])}
+            self.styles = {int(i): m.partition("/")[2] or "plain" for i, m in defn.get("hooks", [])}
+            if any(x not in RULE_STYLES for x in self.styles.values()):
+                msg = f"unknown rule binding style: {defn}"
+                raise ValueError(msg)
             self.shape = defn.get("shape", "flat")
             self.msg_id = MSG_ID if self.shape == "wid" else None
         self.old = int(self.shape[3:]) if self.shape.startswith("old") else 0     # leading fields of an old-style base
@@ -243,7 +250,7 @@ class Spec:
         if not self.shape.startswith("derived"):
             return None
         n = self.slices[0][1]
-        hooks = [[i, m] for i, m in sorted(self.hooks.items()) if i < n]
+        hooks = [[i, m] for i, m in self.defn.get("hooks", []) if i < n]
         return Spec({"f": [self.defn["f"][0]], **({"hooks": hooks} if hooks else {})})
 
     def alpha_key(self, f) -> str:  # noqa: ANN001
@@ -262,12 +269,70 @@ class Spec:
         return ALPHA[self.alpha_key(f)]
 
 
-def hook_fns(mode: str) -> dict:
+def _pick(i: int, v):  # noqa: ANN001, ANN202
+    return v[i]
+
+
+def _tag(t: str, v) -> tuple:  # noqa: ANN001
+    return (t, v)
+
+
+class _Wrap:
+    """A callable object: like a builtin, it is not a descriptor, so it is never bound to the instance or class."""
+
+    def __call__(self, v) -> tuple:  # noqa: ANN001
+        return ("W", v)
+
+
+# How a fix_pack_/fix_unpack_ rule is bound in the class body.  Every rule does the same thing (pack: v -> v[1],
+# unpack: v -> ("W", v)); only the way Python hands it its arguments differs.
+#   plain     def fix_pack_x(self, v) / @classmethod def fix_unpack_x(cls, v)        (the documented spelling)
+#   static    @staticmethod for both (the docstring's own example is socket.inet_aton, which needs this or 'callable')
+#   class     @classmethod for both
+#   callable  a non-descriptor callable assigned in the class body (operator.itemgetter(1) / a callable object)
+#   partial   functools.partial(...) assigned in the class body
+#   bare      unpack rule only: an undecorated one-argument function (it is only ever fetched from the class)
+#   instance  pack rule only: no class attribute, the rule is set on every instance right after construction
+RULE_STYLES = ("plain", "static", "class", "callable", "partial", "bare", "instance")
+PACK_RULES = {
+    "plain": lambda self, v: v[1],  # noqa: ARG005
+    "static": staticmethod(lambda v: v[1]),
+    "class": classmethod(lambda cls, v: v[1]),  # noqa: ARG005
+    "callable": operator.itemgetter(1),
+    "partial": functools.partial(_pick, 1),
+}
+PACK_RULES["bare"] = PACK_RULES["plain"]
+UNPACK_RULES = {
+    "plain": classmethod(lambda cls, v: ("W", v)),  # noqa: ARG005
+    "static": staticmethod(lambda v: ("W", v)),
+    "callable": _Wrap(),
+    "partial": functools.partial(_tag, "W"),
+    "bare": lambda v: ("W", v),
+}
+UNPACK_RULES["class"] = UNPACK_RULES["instance"] = UNPACK_RULES["plain"]
+RULE_SOURCE = {
+    ("pack", "plain"): "    def fix_pack_{n}(self, v): return v[1]",
+    ("pack", "static"): "    @staticmethod\n    def fix_pack_{n}(v): return v[1]",
+    ("pack", "class"): "    @classmethod\n    def fix_pack_{n}(cls, v): return v[1]",
+    ("pack", "callable"): "    fix_pack_{n} = operator.itemgetter(1)",
+    ("pack", "partial"): "    fix_pack_{n} = functools.partial(lambda i, v: v[i], 1)",
+    ("pack", "instance"): "    # every instance gets, right after construction:  obj.fix_pack_{n} = lambda v: v[1]",
+    ("unpack", "plain"): "    @classmethod\n    def fix_unpack_{n}(cls, v): return ('W', v)",
+    ("unpack", "static"): "    @staticmethod\n    def fix_unpack_{n}(v): return ('W', v)",
+    ("unpack", "callable"): "    fix_unpack_{n} = Wrap()   # object with __call__(self, v): return ('W', v)",
+    ("unpack", "partial"): "    fix_unpack_{n} = functools.partial(lambda t, v: (t, v), 'W')",
+    ("unpack", "bare"): "    def fix_unpack_{n}(v): return ('W', v)",
+}
+RULE_SOURCE[("pack", "bare")] = RULE_SOURCE[("pack", "plain")]
+RULE_SOURCE[("unpack", "class")] = RULE_SOURCE[("unpack", "instance")] = RULE_SOURCE[("unpack", "plain")]
+
+
+def hook_fns(mode: str, style: str = "plain") -> dict:
     out = {}
-    if mode in ("both", "pack"):
-        out["fix_pack_"] = lambda self, v: v[1]  # noqa: ARG005
+    if mode in ("both", "pack") and style != "instance":
+        out["fix_pack_"] = PACK_RULES[style]
     if mode in ("both", "unpack"):
-        out["fix_unpack_"] = classmethod(lambda cls, v: ("W", v))  # noqa: ARG005
+        out["fix_unpack_"] = UNPACK_RULES[style]
     return out
 
 
@@ -275,7 +340,7 @@ def _hook_ns(spec: Spec, idxs) -> dict:  # noqa: ANN001
     ns = {}
     for i in idxs:
         if i in spec.hooks:
-            for prefix, fn in hook_fns(spec.hooks[i]).items():
+            for prefix, fn in hook_fns(spec.hooks[i], spec.styles[i]).items():
                 ns[prefix + spec.names[i]] = fn
     if spec.lib is not None:  # the shipped classes have no hooks today; copy them if they ever get some
         for k, v in vars(spec.lib).items():
@@ -623,6 +688,9 @@ def run_call(spec: Spec, cls: type, kids: dict, call: tuple) -> dict:
         r["construct"] = _exc(e)
         return r
     r["values"] = attrs(spec, obj)
+    for j, style in spec.styles.items():
+        if style == "instance" and spec.hooks[j] in ("both", "pack"):
+            setattr(obj, "fix_pack_" + spec.names[j], lambda v: v[1])
     try:
         r["bytes"] = SER.pack_serializable(obj)
     except Exception as e:  # noqa: BLE001
@@ -857,9 +925,9 @@ def render(defn: dict, dc_style: str | None = "typevar") -> str:
     hooks = []
     for i, mode in sorted(spec.hooks.items()):
         if mode in ("both", "pack"):
-            hooks.append(f"    def fix_pack_{spec.names[i]}(self, v): return v[1]")
+            hooks.append(RULE_SOURCE[("pack", spec.styles[i])].format(n=spec.names[i]))
         if mode in ("both", "unpack"):
-            hooks.append(f"    @classmethod\n    def fix_unpack_{spec.names[i]}(cls, v): return ('W', v)")
+            hooks.append(RULE_SOURCE[("unpack", spec.styles[i])].format(n=spec.names[i]))
     dsrc = None
     if spec.default is not None:
         dsrc = default_source(spec.default)
@@ -934,6 +1002,7 @@ BLOCKS = {
         ("ALL", 1, "FULL", HOOKS_BASIC, ["flat", "wid"], {"dev": 1, "wide": 0, "trim": 2}),
         ("CORE", 2, "PAIRS", HOOKS_BASIC, ["flat", "wid", "derived"], {"dev": 1, "wide": 0, "trim": 2}),
         ("SMALL", 3, "PAIRS", HOOKS_BASIC, ["flat", "wid", "derived"], {"dev": 1, "wide": 0, "trim": 2}),
+        ("SMALL", 2, "FULL", HOOKS_BASIC, ["flat", "derived"], {"dev": 1, "wide": 0, "trim": 2}),   # adds the styles only
         ("ROT12/4", 12, "PAIRS", HOOKS_BASIC, ["flat", "wid", "derived"], {"dev": 1, "wide": 0, "trim": 2}),
     ],
     "thorough": [
@@ -955,6 +1024,8 @@ OLD_BLOCKS = {
     "thorough": {"bases": [("H",), ("varlenH",), ("H", "varlenH"), ("payload", "q")], "own_short": CORE, "own_3": SMALL,
                  "hooks": HOOKS_BASIC, "bounds": {"dev": 2, "wide": 1, "trim": 3}},
 }
+# blocks (format alphabet, length) whose hooked, default-free programs are repeated in every rule binding style
+STYLE_BLOCKS = {"quick": {("ALL", 1), ("SMALL", 2)}, "thorough": {("ALL", 1), ("CORE", 2), ("SMALL", 3)}}
 FIRST_USE_DEV = {"quick": 0, "thorough": 1}     # instance deviations explored after a non-default first use
 
 
@@ -989,7 +1060,7 @@ def gen_defs(tier: str) -> tuple[list[tuple], list[dict]]:
     alphabets = {"ALL": [*REGISTERED, "payload", "payload-list"], "CORE": CORE, "SMALL": SMALL}
     items, seen, summary = [], set(), []
     for alpha, length, mode, hook_tokens, shapes, b in BLOCKS[tier]:
-        n0, n_first = len(items), 0
+        n0, n_first, n_style = len(items), 0, 0
         seqs = _rot12(int(alpha[6:])) if alpha.startswith("ROT12") else _seqs(alphabets[alpha], length)
         for s in seqs:
             hook_sets = []
@@ -1013,6 +1084,18 @@ def gen_defs(tier: str) -> tuple[list[tuple], list[dict]]:
                     if shape != "flat":
                         d["shape"] = shape
                     k = json.dumps(d, sort_keys=True)
+                    if h and dflt is None and (alpha, length) in STYLE_BLOCKS[tier] and (
+                            shape == "flat" or (shape == "derived" and h[0][0] == 0)):
+                        # rule binding styles: same rule, bound differently in the class body; defaults take no
+                        # part in it; 'derived' is kept where the rule sits on the inherited base class
+                        for style in RULE_STYLES[1:]:
+                            hs = [[i, f"{m}/{style}"] for i, m in h]
+                            modes = {m for _, m in h}
+                            if ((style == "bare" and modes == {"pack"}) or
+                                    (style in ("instance", "class") and modes == {"unpack"})):
+                                continue       # would be the plain spelling again
+                            items.append(({**d, "hooks": hs}, {**b, "dev": min(b["dev"], 1)}))
+                            n_style += 1
                     if k not in seen:
                         seen.add(k)
                         items.append((d, b))
@@ -1030,7 +1113,8 @@ def gen_defs(tier: str) -> tuple[list[tuple], list[dict]]:
                         "length": length, "format_sequences": len(seqs),
                         "defaults_on_last_field": "absent | every format-appropriate value in DEFAULTS | None",
                         "hook_sets": hook_tokens, "shapes": shapes, "hooks_x_shapes": mode, "instance_bounds": b,
-                        "programs": len(items) - n0, "of_which_first_use_orders": n_first})
+                        "programs": len(items) - n0, "of_which_first_use_orders": n_first,
+                        "of_which_rule_binding_styles": n_style})
     # old-style base: class P(VariablePayload, Old) where Old is a hand-written Payload holding 1-2 leading fields
     ob = OLD_BLOCKS[tier]
     n0 = len(items)
@@ -1116,6 +1200,8 @@ def _shrinks(defn: dict) -> list[dict]:
                     **({"hooks": hooks} if hooks else {})})
     if defn.get("hooks"):
         out.append({k: v for k, v in defn.items() if k != "hooks"})
+        if any("/" in m for _, m in defn["hooks"]):
+            out.append({**defn, "hooks": [[j, m.partition("/")[0]] for j, m in defn["hooks"]]})
         if len(defn["hooks"]) > 1:
             out += [{**defn, "hooks": [h]} for h in defn["hooks"]]
     if "dflt" in defn:
@@ -1214,6 +1300,14 @@ def _work(chunk: list) -> list:
                             (defn, b, {"oracle": "harness-error", "form": "-", "dc_style": None, "call": None,
                                        "detail": f"{defn}\n{traceback.format_exc()[-1500:]}", "exc": type(e).__name__}))
         st.update(s)
+        if any(m.endswith("/instance") for _, m in defn.get("hooks", [])):
+            # stated exclusion: a rule that exists only on the instance is not part of the class definition that
+            # vp_compile (and DataClassPayload on top of it) compiles; executed and counted, never flagged
+            st["excluded_instance_rule_programs"] += 1
+            for v in viol:
+                kind = "loud" if v["oracle"].endswith(("pack", "construct", "unpack", "build")) else "silent"
+                st[f"excluded_instance_rule_{kind}_disagreement:{v['oracle']}:{v['form']}"] += 1
+            continue
         if viol:
             st["programs_with_violations"] += 1
         for v in viol:
@@ -1303,6 +1397,9 @@ def run(ctx: core.Ctx) -> core.Report:
         "a dataclass failure that the compiled form of the same program shows as well (same stage and exception "
         "type, or vp_compile failing outright) is reported once, under the compiled form: DataClassPayload is "
         "built on vp_compile",
+        "stated exclusion: fix_pack_ rules that exist only on the instance (set after construction) are honoured by "
+        "the interpreted form and ignored by vp_compile/dataclass forms, which compile the class; such programs are "
+        "executed and their disagreements counted in statistics (excluded_instance_rule_*), not flagged",
         "a list-valued default is spelled field(default_factory=...) in the dataclass form, the only spelling "
         "dataclasses allow; custom __init__ bodies other than the documented default-forwarding one are out of scope",
         "values are compared together with their Python type (1 and True are different)",
